@@ -6,8 +6,36 @@ from . import rules_flow as flow
 from . import rules_stale as stale
 from . import rules_must as must
 from . import rules_config as cfg
+from . import rules_admit as adm
 
 PROPERTIES = {
+    'C13': {
+        'rules': [adm.rule_cmp_admit, adm.rule_flow_admit_sums, adm.rule_admission_outcomes, fx.rule_auth_sketch_record],
+        'explanation': 'Path-sensitive summaries of both admission scans and both insert handlers: the decision is exactly '
+                       '(candidate.weight <= victims.weight) AND (victims.freq < candidate.freq) on the final aggregates; the aggregates are '
+                       'the + sums over exactly the scanned victims found in the map, each from its own node hash / weight; rejected and '
+                       'oversize candidates leave every resident untouched; only gets feed the sketch.',
+        'decides': 'the admission predicate, what is summed into it, and that rejection touches no resident',
+        'does_not_decide': 'the estimates themselves (C14 numerics), the deque order (C12)',
+    },
+    'C12': {
+        'rules': [adm.rule_must_recency, adm.rule_cmp_admit, adm.rule_cmp_evict, adm.rule_flow_admit_sums],
+        'explanation': 'Recency bookkeeping is invoked on every use (get hit, update, admission push-back); victim selection starts at the '
+                       'front of probation and advances by next only; the scan and the eviction loops stop as early as allowed '
+                       '(victims.weight < candidate.weight, evicted >= weights_to_evict) and remove what peek_front returned.',
+        'decides': 'every use refreshes recency; selection consumes the list from its LRU end and stops as early as allowed',
+        'does_not_decide': 'that Deque really implements the order (its pointer algebra); order among skipped / stale nodes in sync',
+    },
+    'C04': {
+        'rules': [adm.rule_admission_outcomes, adm.rule_cmp_evict, conc.rule_const_logsizes, conc.rule_loop_retry, flow.rule_flow_unsync, flow.rule_flow_sync, stale.rule_must_drain],
+        'explanation': 'Structural half of the bound: a candidate that does not fit is admitted only with its victims removed or is itself '
+                       'removed; oversize candidates are undone; over-capacity is evicted at every unsync operation and every maintenance '
+                       'run with the exact exit test; counters are adjusted on every path (FLOW); the queue of un-applied writes is bounded '
+                       'and never dropped.',
+        'decides': 'every admission evicts or is undone, oversize inserts are undone, over-capacity is evicted at each op / maintenance run, '
+                   'un-applied writes are bounded by a bounded, never-dropping queue',
+        'does_not_decide': 'the numeric bound itself (run-time weights), the +1 per inserting thread term',
+    },
     'C17': {
         'rules': [cfg.rule_flow_config_names, cfg.rule_build_validate, cfg.rule_default_consts, cfg.rule_initcap_sink],
         'explanation': 'Every configuration wire is followed by name through the type-checked program: builder setters change exactly their '
